@@ -579,7 +579,11 @@ class Unit:
         if is_default:
             origin = 'src/%s.rs (trait default copied into impl, rule R2)' % f.module
         self.table.append((lo, hi, name, origin, 'assumed' if assumed else 'fn'))
-        (self.assumed if assumed else self.functions).append({'anchor': name, 'origin': origin, 'body_sha256_16': src.body_hash(f),
+        _nm, _g, _params, _ret, _w = src.fn_sig_parts(f, {})
+        siginfo = {'fn': f.name, 'params': _params, 'ret': _ret, 'module': f.module, 'is_default': is_default,
+                   'impl_header': im.header if im is not None else None, 'trait': im.trait if im is not None else None,
+                   'selfty': im.selfty if im is not None else None}
+        (self.assumed if assumed else self.functions).append({'anchor': name, 'sig': siginfo, 'origin': origin, 'body_sha256_16': src.body_hash(f),
                                'expansion_line': src.line_of(f.sig[0]),
                                'requires': c.requires, 'ensures': c.ensures, 'tags': list(c.tags)})
         return text
